@@ -115,12 +115,19 @@ pub struct Stats {
     pub digest: u64,
     pub counters: BTreeMap<&'static str, u64>,
     pub classes: BTreeMap<&'static str, BTreeSet<u64>>,
+    pub maxima: BTreeMap<&'static str, u64>,
     pub samples: Vec<(u64, String)>,
 }
 
 impl Stats {
     pub fn add(&mut self, k: &'static str, n: u64) {
         *self.counters.entry(k).or_insert(0) += n;
+    }
+    pub fn max(&mut self, k: &'static str, v: u64) {
+        let e = self.maxima.entry(k).or_insert(0);
+        if v > *e {
+            *e = v;
+        }
     }
     pub fn class(&mut self, k: &'static str, c: u64) {
         self.classes.entry(k).or_default().insert(c);
@@ -143,6 +150,9 @@ impl Stats {
         }
         for (k, v) in o.classes {
             self.classes.entry(k).or_default().extend(v);
+        }
+        for (k, v) in o.maxima {
+            self.max(k, v);
         }
         for (i, s) in o.samples {
             self.sample(i, s);
@@ -283,6 +293,7 @@ impl Evidence {
             "families": fams,
             "digest": format!("{:016x}", total.digest),
             "counters": total.counters,
+            "maxima": total.maxima,
             "classes_observed": total.classes.iter().map(|(k, v)| (k.to_string(), if v.len() <= 40 { json!({"count": v.len(), "values": v}) } else { json!({"count": v.len()}) })).collect::<BTreeMap<_, _>>(),
             "known_findings_printed": self.known_findings,
         });
